@@ -148,6 +148,8 @@ type Scn struct {
 	CancelAtMs int               `json:"cancel_at_ms,omitempty"` // cancel the caller's context (icmp/sack take one)
 	EpsNs     int64              `json:"eps_ns,omitempty"`
 	NoOwnLoop bool               `json:"no_own_loop,omitempty"`
+	TargetOverride string `json:"target_override,omitempty"` // probe another address than the variant's default
+	ShareListener  int    `json:"share_listener,omitempty"`  // SACK: 1+index of the scenario whose listener (same address and port) this one connects to
 	// Then: scenarios run one after the other in the same thread after this one (non-initial states, stale traffic)
 	Then []Scn `json:"then,omitempty"`
 	done bool
@@ -166,6 +168,9 @@ func (sc *Scn) Defaults() {
 }
 
 func (sc *Scn) Target() netip.Addr {
+	if sc.TargetOverride != "" {
+		return netip.MustParseAddr(sc.TargetOverride)
+	}
 	vi := Info(sc.Variant)
 	switch {
 	case vi.Kind == "sack":
@@ -214,6 +219,8 @@ type Script struct {
 	// RunTraceroute mode: the target is whatever address the probes go to; routers may be renumbered
 	anyTarget bool
 	routerFn  func(v6 bool, t int) netip.Addr
+	// threadScns: scenarios run by a given managed thread, in order (binds a sink to the scenario whose thread built it)
+	threadScns map[int][]*Scn
 }
 
 // TargetOf returns the address that plays the target for scenario sc (given one of its probes).
@@ -253,6 +260,20 @@ func (s *Script) scnFor(sink *simnet.Sink, p *refcodec.Packet) *Scn {
 		return sc
 	}
 	k := kindOf(p)
+	if cands, ok := s.threadScns[sink.Creator]; ok {
+		for _, sc := range cands {
+			taken := false
+			for _, o := range s.bySink {
+				if o == sc {
+					taken = true
+				}
+			}
+			if !taken && !sc.done {
+				s.bySink[sink.ID] = sc
+				return sc
+			}
+		}
+	}
 	for _, sc := range s.Scns {
 		if sc.done {
 			continue
@@ -730,15 +751,30 @@ func RunScns(cfg vsched.Config, top ...*Scn) *Result {
 	})
 	res.FDsBefore = countFDs()
 	ports := make([]uint16, len(scns))
+	listenerOf := map[int]*simnet.Listener{}
 	for i, sc := range scns {
-		if Info(sc.Variant).Kind == "sack" {
-			p, err := Listen(n, sc)
-			if err != nil {
-				panic("listen: " + err.Error())
-			}
-			ports[i] = p
-		}
 		res.Obs = append(res.Obs, &Obs{SinkID: -1})
+		if Info(sc.Variant).Kind != "sack" || sc.ShareListener > 0 {
+			continue
+		}
+		before := len(n.Listeners)
+		p, err := Listen(n, sc)
+		if err != nil {
+			panic("listen: " + err.Error())
+		}
+		ports[i] = p
+		if len(n.Listeners) > before {
+			listenerOf[i] = n.Listeners[len(n.Listeners)-1]
+			listenerOf[i].Expect = 1
+		}
+	}
+	for i, sc := range scns {
+		if sc.ShareListener > 0 {
+			ports[i] = ports[sc.ShareListener-1]
+			if l := listenerOf[sc.ShareListener-1]; l != nil {
+				l.Expect++
+			}
+		}
 	}
 	if cfg.MaxVirtual == 0 {
 		cfg.MaxVirtual = 30 * time.Minute
@@ -761,6 +797,12 @@ func RunScns(cfg vsched.Config, top ...*Scn) *Result {
 			sc.done = true
 		}
 		chain := func(c []int) {
+			if script.threadScns == nil {
+				script.threadScns = map[int][]*Scn{}
+			}
+			for _, i := range c {
+				script.threadScns[vsched.CurrentThread()] = append(script.threadScns[vsched.CurrentThread()], scns[i])
+			}
 			for _, i := range c {
 				one(i)
 			}
